@@ -445,8 +445,11 @@ def held (s : State) : Nat :=
 
 /-- Permits that are out but not attached to a held result: the reader between `acquire` and the return of
 `next(source)`, and the consumer between `get` and `release`. -/
-def pending (s : State) : Nat :=
-  (match s.rpc with | .next | .insrc => 1 | _ => 0) + s.cpc.permit
+def RPc.inCall : RPc → Nat
+  | .next | .insrc => 1
+  | _ => 0
+
+def pending (s : State) : Nat := s.rpc.inCall + s.cpc.permit
 
 /-- The consumer is inside `next()`. -/
 def CPc.inNext : CPc → Bool
